@@ -534,6 +534,9 @@ pub fn explore(w: &World, depth: usize, st: &mut Stats, found: &mut Vec<Found>) 
         st.states += new_states;
         st.per_depth.push(new_states);
         frontier = next;
+        if new_states == 0 {
+            break; // closed: every reachable state has been expanded
+        }
     }
 }
 
@@ -559,7 +562,7 @@ pub fn replay_history(w: &World, ops: &[Op]) -> Result<Vec<(String, String)>, St
 }
 
 pub fn depth_for(tier: &str) -> usize {
-    std::env::var("RSV_DEPTH").ok().and_then(|s| s.parse().ok()).unwrap_or(if tier == "thorough" { 8 } else { 5 })
+    std::env::var("RSV_DEPTH").ok().and_then(|s| s.parse().ok()).unwrap_or(if tier == "thorough" { 10 } else { 5 })
 }
 
 /// runs the exploration part and fills the report; returns the number of violations found
@@ -613,6 +616,8 @@ pub fn run_into(report: &mut Report, tier: &str) {
     report.cov("traces_validated_against_impl", json!(st.transitions));
     report.cov("depth", json!(depth));
     report.cov("states_per_depth", json!(st.per_depth));
+    report.cov("state_space_closed", json!(st.per_depth.last() == Some(&0)));
+    report.cov("note_on_closure", json!("if the last level adds no new state the exploration has reached every state reachable with this vehicle / tour-variant set at any depth"));
     report.cov("calls_per_operation", json!(st.per_op));
     report.cov("panicking_calls", json!(st.panics));
     report.cov("transitions_into_states_with_a_negative_cycle_counter", json!(st.negative_counter_states));
